@@ -447,6 +447,13 @@ for _isa, _fl in (('sse2', ['-msse2']), ('avx2fma', ['-mavx2', '-mfma'])):
                 _sb.only.add(_u)
             P.contracts.append(_c2)
 
+# An aligned float vec3 is a __m128 whose 4th lane is not part of the value but is reachable through the public API (vec3(1) / d leaves 1/0 there): the
+# geometric functions of a vec3 with finite components must not depend on it.  Padding-lane family shared with C03 (props/padfam.py), here at SSE2 for
+# the functions this property names (seeds C03, C12_3: dot(vec3) masking one operand only).
+from padfam import add_pad_family
+add_pad_family(P, 'c12', {'sse2': ['-msse2']}, ['GLM_FORCE_INTRINSICS', 'GLM_FORCE_DEFAULT_ALIGNED_GENTYPES'],
+               only=('dot', 'length', 'length2', 'distance', 'normalize', 'cross', 'reflect', 'faceforward', 'div_then_dot'), quick_isas=('sse2',))
+
 P.level_text = ('over the reals (machine arithmetic treated as mathematical): the real-valued function computed by the code clang '
                 'extracts from /repo satisfies the Euclidean identities of the property statement for all real inputs in the stated '
                 'domain; plus bit-exact CBMC contracts (all float/double bit patterns) for the branch selection of faceforward, the '
